@@ -5,19 +5,28 @@ ENV = "GOFLAGS=-mod=mod GOPROXY=off GOSUMDB=off GOTOOLCHAIN=local"
 claimed = {
  "C01": dict(ref="DESIGN.md §4 C01",
    text="Bounded symbolic execution of the real vhostTrie (Insert/Match/matchHost/matchPath/splitHostPath incl. strings.Split/Join/ToLower, net.SplitHostPort from their SSA): for 1..2 sites (3 thorough) over host patterns {a,b,*}-labels / catch-all spellings x path prefixes, and every request host (any case, optional port) / path within the bound, Match returns a site acceptable to a declarative statement-level spec; and two tries built in different declaration orders agree. Every path ends in an SMT query; counterexamples are replayed natively.",
-   note="Bounds: sites <= 2 (quick) / 3 (thorough); labels are one byte from {a,b,*} (request {a,b,A}); site path '/' + <= 1 byte, request path '/' + <= 2 bytes from {a,b,/}; duplicate site keys excluded (documented precondition). The server entry point (serveHTTP, 404/421) is not yet covered by this check. Trusted: go/ssa, engine semantics (validated by native replay of sampled witnesses), z3."),
+   note="Bounds: sites <= 2 (quick) / 3 (thorough); labels are one byte from {a,b,*} (request {a,b,A}); site path '/' + <= 1 byte, request path '/' + <= 2 bytes from {a,b,/}; duplicate site keys excluded (documented precondition). The server entry point (Server.ServeHTTP: exactly one site's handler or 404/421, prefix trimming) is covered for <=2 sites. Trusted: go/ssa, engine semantics (validated by native replay of sampled witnesses), z3."),
  "C03": dict(ref="DESIGN.md §4 C03",
    text="Bounded symbolic execution of the real rule matcher and gates: (a) for every request path '/'+<=4 bytes (5 thorough) over {/ . a A \\ %} and every rule base '/'+<=2 bytes (3 thorough), if path.Clean('/'+p) -- what http.Dir opens -- lies under the cleaned base then Path.Matches(base) holds (both Clean calls are the real std code); (b) BasicAuth.ServeHTTP with resource/exclude rules, credentials absent/wrong/right, GET/OPTIONS: the next handler never runs without credentials for a path resolving under the resource and outside its excludes, refusal is 401 with no body, with credentials the request is passed on unchanged; (c) Internal.ServeHTTP never passes an internal path on.",
    note="Bounds as stated; CaseSensitivePath symbolic. The composition with path-rewriting directives in front of the gate (rewrite, tryfiles, ext) and content handlers behind it is not yet covered by this check."),
  "C05": dict(ref="DESIGN.md §4 C05",
    text="Bounded symbolic execution of every load-balancing policy's real Select (Random, LeastConn, RoundRobin, IPHash, URIHash, First, Header), hostByHashing, UpstreamHost.Down/Full/Available and the CheckDown closure built by staticUpstream.NewHost: pool sizes 1..5 (8 thorough) with fully symbolic per-backend state (Unhealthy, Fails, Conns, MaxConns, MaxFails), symbolic keys / 32-bit cursor / rand value; asserts result!=nil iff an available backend exists, result available and in pool, first=earliest, least_conn minimal, round_robin next-in-cyclic-order and even, hash policies stable.",
    note="Bounds: pool <= 5 (8 thorough); real FNV-1a hash only for keys <= 2 bytes and pools <= 3, larger pools with the hash summarised as a free 32-bit value (superset; native replay searches a key with the same residue); rand.Int() is an arbitrary non-negative int. The retry loop of Proxy.ServeHTTP (try_duration/fail_timeout) is not covered yet."),
+ "C06": dict(ref="DESIGN.md §4 C06",
+   text="Bounded symbolic execution of the real TLS selection code: MakeTLSConfig/buildStandardTLSConfig/SetDefaultTLSParams build the per-listener group for 1..2 (3 thorough) sites (host patterns over {a,*} labels and the catch-all spellings, first site's versions/ClientAuth/ciphers symbolic), then configGroup.GetConfigForClient is called for every SNI name of 1..2 labels in any case with optional surrounding blanks; asserts the returned tls.Config is the one of the most specific site (exact, wildcard, catch-all) and carries that site's versions, client-auth policy, FALLBACK_SCSV first and acme-tls/1; TLS1.2 default minimum; TLS/plaintext mixing and conflicting same-name configs rejected; strict SNI/Host agreement in Server.serveHTTP for client-auth sites.",
+   note="The TLS handshake itself (crypto/tls honouring the returned config), certificates and client CA pools are outside. Bounds: <=2 sites quick, one-byte labels, SNI/Host names <=2 bytes (3 thorough) over {a,A,b,.}."),
+ "C10": dict(ref="DESIGN.md §4 C10",
+   text="Bounded symbolic execution of the real lexer/parser: allTokens on every input of <=4 bytes (5 thorough) over the lexical alphabet and <=2 arbitrary bytes (UTF-8/BOM paths); parser.parseAll on every token sequence of <=4 tokens (6 thorough) over the structural vocabulary with arbitrary line breaks and on sequences with snippet definitions/imports; structured snippet definitions + use; file import equals inline; replaceEnvVars on every token <=5 bytes over {{}$%V} with every value <=4 bytes. Asserts totality, termination within a derived instruction budget (a budget overrun is replayed natively under a wall-clock guard), errors name file:line, keys and directive tokens exactly as written.",
+   note="Termination is claimed only within the bounds. Known finding (listed, not fixed): snippet import cycles never terminate. Imports use an in-memory file table (os.Open/Stat, filepath.Glob/Abs intrinsics); JSON conversion is outside."),
  "C13": dict(ref="DESIGN.md §4 C13",
    text="SMT-decided kernels on the real fastcgi client code: header.init for every content length 0..65535 (padding < 8, 8-aligned), encodeSize for every size < 2^31 against the specification decoder, writeRecord wire layout for symbolic contents, and streamReader over every framing of <= 2 (3 thorough) stdout/stderr/other records with symbolic payloads, padding, read chunking and reader buffer sizes.",
    note="Bounds: record content <= 9 bytes (17 thorough) in writeRecord; stream harness payload <= 2 bytes per record, padding <= 1. encoding/binary.Read/Write are modelled by an intrinsic (fixed big-endian layout). writePairs, buildEnv, the body path and extension routing are not covered yet."),
  "C19": dict(ref="DESIGN.md §4 C19",
    text="Bounded symbolic execution of the peer-facing parsers on arbitrary bytes: parseRawClientHello on every input of 0..52 bytes (62 thorough) with all bytes symbolic; the browser heuristics (looksLikeFirefox/Chrome/Edge/Safari/Tor, heartbeat) on arbitrary extension/curve/cipher lists; getVersion; clientHelloConn.Read for every split point of a record into reads (recorded info equals parse of the whole, bytes passed on unchanged); parseLinkHeader on every string <= 6 bytes over {<>;,=a space} and <= 3 arbitrary bytes. Any panic escaping is a violation; counterexamples are replayed natively.",
    note="Bounds as stated; hello bodies of 42..43 bytes in the segmentation harness with one cut (two cuts thorough). fastcgi records, replacer and basicauth header parsing are not covered yet by this check."),
+ "C20": dict(ref="DESIGN.md §4 C20",
+   text="Bounded symbolic execution of the real replacer and log middleware: Replace is total on every format <=4 bytes (5 thorough) over the placeholder syntax; request text (header, custom placeholder, query value) of <=3 symbolic bytes over an alphabet that can spell placeholders is inserted verbatim exactly once between escaped-brace literals; unknown placeholders yield the empty-value marker; Logger.ServeHTTP with path scopes/exceptions, 1..2 log entries and every inner-handler behaviour (writes with/without status, chunks, error returns) emits exactly one line per entry whose {status} {size} equal what the fake client received, none out of scope.",
+   note="Concurrent requests sharing a log, log rolling, and the {request}/{request_body}/TLS/time placeholders are outside. (*log.Logger) output is modelled by an intrinsic that formats the line and writes it to the harness sink."),
  "C17": dict(ref="DESIGN.md §4 C17",
    text="Bounded symbolic execution of the real limits / listener code over go/ssa: one maxBytesReader.Read step from an arbitrary reader state (remaining limit any int64>=0, buffer 0..4 bytes, underlying reader returning any count/error); whole bodies 0..5 bytes against limits 0..3 and 2^63-1 under every chunking and buffer size; scope selection of Limit.ServeHTTP over <=3 nested path scopes (longest matching scope wins); parseSize exactness for 1..3 and 10..11 digit numbers x every unit (64-bit overflow); strictest-of listener timeouts and header limit over <=2 (3 thorough) / <=4 sites with fully symbolic 64-bit values.",
    note="Bounds as stated. The proxy's mapping of the too-large error to 413 is not covered yet. Trusted: go/ssa construction, the engine's instruction semantics (validated per run by native replay of sampled path witnesses), z3 / cvc5."),
@@ -25,7 +34,7 @@ claimed = {
 not_applicable = {
  "C07": "Not decidable by symbolic execution of casket's code: the observable is the fate of real connections on kernel sockets while descriptors are duplicated and net/http drains; a verdict would be about a hand-written model of the kernel and net/http, not about this code (DESIGN.md §4 C07).",
 }
-pending = ["C02","C04","C06","C08","C09","C10","C11","C12","C14","C15","C16","C18","C20"]
+pending = ["C02","C04","C08","C09","C11","C12","C14","C15","C16","C18"]
 checks = []
 for pid, c in sorted(claimed.items()):
     checks.append({
